@@ -1035,6 +1035,29 @@ func (c *CEnv) callExpr(e *CE, hint *Value) Value {
 		}
 		comp := c.x.comp(c.heap(), a.Loc.Prefix, c.x.compSortFor(lf[0].Sort, len(a.Loc.Elems)+1))
 		return Value{K: KScalar, X: nestedSelect(comp, a.Loc.indices())}
+	case "addr":
+		// addr(v): the address of the local variable v of the function under contract (&v)
+		if len(e.Args) != 1 || e.Args[0].Kind != "id" || c.fr == nil {
+			c.fail("addr() needs the name of a local variable: %s", e)
+		}
+		name := e.Args[0].Name
+		for _, l := range c.fr.fn.Locals {
+			if l.Comment == name {
+				if a, ok := c.fr.env[l]; ok && a.K == KPtr {
+					return a
+				}
+			}
+		}
+		for _, b := range c.fr.fn.Blocks {
+			for _, ins := range b.Instrs {
+				if l, ok := ins.(*ssa.Alloc); ok && l.Heap && l.Comment == name {
+					if a, ok := c.fr.env[l]; ok && a.K == KPtr {
+						return a
+					}
+				}
+			}
+		}
+		c.fail("addr(%s): no such address-taken local (or not yet allocated)", name)
 	case "wheld", "rheld", "unheld":
 		// ghost lock state of a mutex field: write-held / read-held / not held by this call chain
 		l := c.evalLoc(e.Args[0], c.heap())
